@@ -59,3 +59,22 @@ Lemma snapshot_faults :
   | OFault _ => False
   end.
 Proof. vm_compute. split; [reflexivity|exact I]. Qed.
+
+(* base64 mode (both variants of the decoder): an RFC 6455-valid text message fragmented at an offset that is
+   not a multiple of 4 characters - TEXT fin=0 "QU", CONT fin=1 "JD", i.e. base64 of "ABC" - is lost silently:
+   everything is available, six calls return EAGAIN, nothing is delivered, the decoder is idle and the stream
+   consumed; the unfragmented frame "QUJD" delivers "ABC".  (conv_valid states the restriction: every
+   fragment of a text message is a base64 string of its own.) *)
+Definition split_frames : list frame :=
+  [mkFrame false OP_TEXT true (1, 2, 3, 4) [81; 85]; mkFrame true OP_CONT true (5, 6, 7, 8) [74; 68]].
+Definition whole_frame : list frame := [mkFrame true OP_TEXT true (1, 2, 3, 4) [81; 85; 74; 68]].
+Definition avail6 : list rev := [RAvail 100; RAvail 100; RAvail 100; RAvail 100; RAvail 100; RAvail 100].
+
+Lemma text_split_lost :
+  b64_pton [81; 85; 74; 68] 10 = Some [65; 66; 67] /\
+  (forall fx, let '(rs, w', i') := ws_run fx ws_init (mkIO (encode_frames split_frames) avail6) [100; 100; 100; 100; 100; 100] in
+     delivered rs = [] /\ forallb call_ok rs = true /\ io_stream i' = [] /\ at_boundary w' = true) /\
+  (forall fx, delivered (fst (fst (ws_run fx ws_init (mkIO (encode_frames whole_frame) avail6) [100; 100]))) = [65; 66; 67]).
+Proof.
+  split; [vm_compute; reflexivity|]. split; intros [|]; vm_compute; repeat split; reflexivity.
+Qed.
